@@ -173,6 +173,9 @@ fn main() {
     let args: Vec<String> = std::env::args().collect();
     START.get_or_init(Instant::now);
     if args.len() >= 3 && args[1] == "worker" {
+        if util::REAL_SOCKET_ENGINES.contains(&args[2].as_str()) {
+            util::isolate_network();
+        }
         let f = worker_dispatch(&args[2]);
         worker_loop(&*f);
         return;
@@ -199,6 +202,9 @@ fn replay(path: &str) -> i32 {
     };
     let r = &v["replay"];
     println!("property={} clause={} what={}", v["property"], v["clause"], v["what"]);
+    if !matches!(r["engine"].as_str().unwrap_or(""), "modea" | "modeb" | "c13_two" | "e3_codec" | "e3_config" | "e3_window") {
+        util::isolate_network();
+    }
     let text = match r["engine"].as_str().unwrap_or("") {
         "modea" => e1_checks::replay(r),
         "modeb" => e1b_checks::replay(r),
